@@ -281,11 +281,10 @@ Proof.
 Qed.
 
 (* ---------- an edge line ---------- *)
-Lemma rep_edge n0 cap done b from to fs b' : rep n0 done b -> Forall (fun l => l <> 0%Z) fs ->
-  d4_line rc cap b (DEdge from to fs) = Some b' -> rep n0 (done ++ [DEdge from to fs]) b'.
+Lemma rep_edge n0 done b from to fs b' : rep n0 done b -> Forall (fun l => l <> 0%Z) fs ->
+  d4_line rc b (DEdge from to fs) = Some b' -> rep n0 (done ++ [DEdge from to fs]) b'.
 Proof.
   intros HR Hnz H. cbn [d4_line] in H.
-  destruct (forallb _ fs); [|discriminate].
   destruct (idx_get (bs_idx b) from) as [a|] eqn:Ea; [|discriminate].
   destruct (idx_get (bs_idx b) to) as [c|] eqn:Ec; [|discriminate].
   destruct (ls_add_edge a c (bs_ls b)) as [s1|] eqn:E1; [|discriminate].
@@ -333,28 +332,28 @@ Proof.
 Qed.
 
 (* ---------- the whole file ---------- *)
-Lemma rep_line n0 cap done b t b' : rep n0 done b ->
+Lemma rep_line n0 done b t b' : rep n0 done b ->
   (forall from to fs, t = DEdge from to fs -> Forall (fun l => l <> 0%Z) fs) ->
-  d4_line rc cap b t = Some b' -> rep n0 (done ++ [t]) b'.
+  d4_line rc b t = Some b' -> rep n0 (done ++ [t]) b'.
 Proof.
   intros HR Hnz H. destruct t as [from to fs| | | |].
-  - apply (rep_edge n0 cap done b from to fs b' HR (Hnz _ _ _ eq_refl) H).
+  - apply (rep_edge n0 done b from to fs b' HR (Hnz _ _ _ eq_refl) H).
   - cbn [d4_line] in H. injection H as <-. now apply (rep_decl n0 done b DOr KOr).
   - cbn [d4_line] in H. injection H as <-. now apply (rep_decl n0 done b DAnd KAnd).
   - cbn [d4_line] in H. injection H as <-. now apply (rep_decl n0 done b DTrue KTrue).
   - cbn [d4_line] in H. injection H as <-. now apply (rep_decl n0 done b DFalse KFalse).
 Qed.
 
-Lemma rep_lines n0 cap : forall toks done b b', rep n0 done b ->
+Lemma rep_lines n0 : forall toks done b b', rep n0 done b ->
   (forall from to fs, In (DEdge from to fs) toks -> Forall (fun l => l <> 0%Z) fs) ->
-  d4_lines rc cap b toks = Some b' -> rep n0 (done ++ toks) b'.
+  d4_lines rc b toks = Some b' -> rep n0 (done ++ toks) b'.
 Proof.
   induction toks as [|t r IH]; intros done b b' HR Hnz H; cbn [d4_lines] in H.
   - injection H as <-. now rewrite app_nil_r.
-  - destruct (d4_line rc cap b t) as [b1|] eqn:E; [|discriminate].
+  - destruct (d4_line rc b t) as [b1|] eqn:E; [|discriminate].
     replace (done ++ t :: r) with ((done ++ [t]) ++ r) by now rewrite <- app_assoc.
     apply (IH (done ++ [t]) b1 b'); [|intros from to fs Hin; apply (Hnz from to fs); now right|exact H].
-    apply (rep_line n0 cap done b t b1 HR); [|exact E].
+    apply (rep_line n0 done b t b1 HR); [|exact E].
     intros from to fs ->. apply (Hnz from to fs). now left.
 Qed.
 
